@@ -8,7 +8,7 @@
 use std::{fmt, marker::PhantomData};
 
 use serde::{
-    de::{self, SeqAccess, Visitor},
+    de::{self, DeserializeOwned, SeqAccess, Visitor},
     Deserialize, Deserializer,
 };
 use serde_json::{value::RawValue as RawJsonValue, Value as JsonValue};
@@ -83,13 +83,13 @@ where
 pub fn ignore_invalid_vec_items<'de, D, T>(deserializer: D) -> Result<Vec<T>, D::Error>
 where
     D: Deserializer<'de>,
-    T: Deserialize<'de>,
+    T: DeserializeOwned,
 {
     struct SkipInvalid<T>(PhantomData<T>);
 
     impl<'de, T> Visitor<'de> for SkipInvalid<T>
     where
-        T: Deserialize<'de>,
+        T: DeserializeOwned,
     {
         type Value = Vec<T>;
 
@@ -103,8 +103,11 @@ where
         {
             let mut vec = Vec::new();
 
-            while let Some(result) = seq.next_element::<T>().transpose() {
-                let Ok(elem) = result else {
+            // Read every item into a JSON value first: that always consumes the item, and an error
+            // at this point is an error of the input text itself (e.g. truncated input), which must
+            // end the loop rather than be skipped over forever.
+            while let Some(value) = seq.next_element::<JsonValue>()? {
+                let Ok(elem) = T::deserialize(value) else {
                     continue;
                 };
 
